@@ -77,17 +77,11 @@ let replay ~maxt ~program (lines : line list) : string option =
             if (gett !st u).t_blocked = None then
               err := Some (Printf.sprintf "step %d: the signal woke thread %d, which is not blocked in the model (hypothesis sched_wf of T13 does not hold on this trace)" k (int_of_nat u))
           | _ -> ());
-         (* hypothesis sched_causal of T14_race_free: a thread starts only after the pthread_create that creates it *)
-         if op = "start" then begin
-           let nthreads = List.length (!st).ps_threads in
-           for x = 0 to nthreads - 1 do
-             let th = gett !st (nat_of_int x) in
-             (match th.t_op, th.t_obj with
-              | KCreate, OThread u when int_of_nat u = t ->
-                err := Some (Printf.sprintf "step %d: thread %d starts while thread %d has not yet performed the pthread_create that creates it (hypothesis sched_causal of T14_race_free)" k t x)
-              | _ -> ())
-           done
-         end;
+         (* (no check of sched_causal here: like the model, the schedule shim makes a created thread runnable as soon as its
+            creator has reached pthread_create, so traces in which it starts before the creator's create step are explored
+            on purpose - they stand for the new thread running before pthread_create returns; the theorem for ALL
+            schedules is T14_race_free_hb, in which the creator's initialising accesses, which precede the call, are
+            ordered before the new thread) *)
          if !err = None then
          (match pstep !st (nat_of_int t) wake !stash with
           | None -> err := Some (Printf.sprintf "step %d: thread %d is not enabled in the model" k t)
